@@ -18,19 +18,25 @@ CURVED_TYPES = ["curved", "ipcurved", "qpcurved"]
 HYPER_TYPES = ["hyperbolic", "iphyperbolic", "qphyperbolic"]
 TENSOR_TYPES = ["tensor", "iptensor", "qptensor"]
 
-OBS_NODAL, OBS_ROUTES, OBS_RT = 1, 2, 4
+OBS_NODAL, OBS_ROUTES, OBS_RT, OBS_EXACT, OBS_GRAD, OBS_TWIN = 1, 2, 4, 16, 32, 64
 
 # which property a failed requirement speaks about (event name may refine it)
-def attribute(req, event, ev=None):
+def attribute(req, event, ev=None, text=""):
     name = req[0] if isinstance(req, list) else req
     if name == "need" and ev is not None and (ev.get("st", {}).get("lim") or (ev.get("a") or {}).get("ll")):
         return "C08"      # the needed set was computed under level limits
+    if event in ("copy", "copyctor", "assign"):
+        return "C11"      # whatever is wrong right after a copy is a property of the copy
     if name in ("obs-nodal",):
         return "C01"
     if name in ("obs-routes",):
         return "C04"
     if name in ("obs-rt",):
         return "C06"
+    if name in ("obs-exact-qspace", "obs-exact-q"):
+        return "C02"
+    if name in ("obs-exact-ispace", "obs-exact-i", "obs-exact-exception"):
+        return "C03"
     if name in ("lim", "cand-limits", "candl-limits", "TLimits"):
         return "C08"
     if (event in ("cand", "candl") or name.startswith("cand")) and ev is not None and ev.get("st", {}).get("lim"):
@@ -44,7 +50,11 @@ def attribute(req, event, ev=None):
     if event in ("bad", "loadwrong"):
         return "C14"
     if name == "result":
-        return "C07" if event in ("surp", "surpl") else "C14"
+        # the requirement text carries the result class the specification expects
+        expected_error = ("runtime_error" in text or "invalid_argument" in text)
+        if event in ("surp", "surpl") and not expected_error:
+            return "C07"        # a documented call (e.g. a scale correction) was refused
+        return "C14"
     return "C07"
 
 
@@ -215,6 +225,13 @@ def history(rnd, label, fam=None, steps=6, with_bad=False, with_copy=False, with
             continue
         if constructing:
             k = rnd.random()
+            if with_bad and rnd.random() < 0.2:
+                # out-of-order: refinement while construction is active (documented runtime_error); updateGrid has no such clause
+                cand = [refine_line(rnd, info) for _ in range(6)]
+                cand = [c for c in cand if not c.startswith("update")]
+                if cand:
+                    L.append(cand[0])
+                    continue
             if k < 0.25:
                 L.append(cand_line(rnd, info))
             elif k < 0.8:
@@ -429,7 +446,7 @@ def run_grid(ctx, scen_sets, obs_mask, prop, chunk=30, timeout=240):
             ev = rj["event"] or {}
             names = [req_name(x) for x in rj["raw_req"]] or ([rj["invariant"]] if rj["invariant"] else ["truncated"])
             name = names[0]
-            owner = attribute(name, ev.get("e", "?"), ev) if name != "truncated" else prop
+            owner = attribute(name, ev.get("e", "?"), ev, (rj["raw_req"] or [""])[0]) if name != "truncated" else prop
             if ev.get("r") == "timeout":
                 owner = "C08"       # a refinement / update call that does not return
             if rj["invariant"] == "TLimits":
